@@ -4,6 +4,6 @@ p="$1"; c="$2"; t="${3:-quick}"
 cd /verif
 git -C /repo apply "$p" || { echo "PATCH DOES NOT APPLY: $p"; exit 3; }
 out=$(./check $c $t 2>&1); rc=$?
-git -C /repo checkout -- .
+git -C /repo checkout -- .; git -C /verif checkout -- evidence/$c.json 2>/dev/null
 echo "$out" | grep -E "VIOLATION|KNOWN|INFRA|obligations" | cut -c1-400
 echo "mutant=$p check=$c tier=$t rc=$rc"
